@@ -489,6 +489,9 @@ type recvMPD struct {
 	Raw  []byte
 	Reps []recvMPDRep // sorted by id
 	Tsbd float64
+	// Partition: how the representations are grouped into AdaptationSets, independent of any order
+	// ("a+b|c": one set with a and b, one with c)
+	Partition string
 }
 
 // recvParseMPD parses a published MPD. A document that does not parse completely is an error.
@@ -511,6 +514,17 @@ func recvParseMPD(raw []byte) (*recvMPD, error) {
 	if len(m.Periods) != 1 {
 		return nil, fmt.Errorf("%d periods", len(m.Periods))
 	}
+	var groups []string
+	for _, as := range m.Periods[0].AdaptationSets {
+		var ids []string
+		for _, rep := range as.Representations {
+			ids = append(ids, rep.Id)
+		}
+		sort.Strings(ids)
+		groups = append(groups, strings.Join(ids, "+"))
+	}
+	sort.Strings(groups)
+	out.Partition = strings.Join(groups, "|")
 	for _, as := range m.Periods[0].AdaptationSets {
 		st := as.SegmentTemplate
 		if st == nil {
